@@ -119,7 +119,7 @@ class Prop(object):
     ID = 'C15'
     LEVEL = 'model_checking'
     TECHNIQUE = 'explicit-state breadth-first search over key-management histories on real PGPKey objects (state = replayed history, canonical-state deduplication), reference model in lock-step, invariant evaluated in every state'
-    RULE = ('menu of 24 operations (add identity / image, add signing / encryption subkey, re-certify with new preferences, same-second re-certification, third-party '
+    RULE = ('menu of 23 operations (add identity / image, add signing / encryption subkey, re-certify with new preferences, same-second re-certification, third-party '
             'certification exportable / local / issuer named by key id only, revoke identity / subkey / key, designated revoker, direct-key signature, delete identity, protect, derive public '
             'key, copy, export-import binary / armored) from 3 roots (Ed25519, P-256, RSA-2048), all sequences up to the depth bound, deduplicated on the canonical '
             'export (times ranked, integers masked). One state = one canonical key state; one transition = one real API call replayed on fresh objects.')
@@ -190,6 +190,11 @@ class Prop(object):
             if pa != pb:
                 probs.append(('twin-differs', 'public twin does not show the same identities / subkeys / signatures as the private key'))
             r.outcomes['state-ok' if not probs else 'state-violation'] += 1
+            m = w.model
+            # which kinds of model state the search reached (evidence: dimensions.model_state)
+            r.dim('model_state', '%d identities (%d revoked), %d subkeys (%d revoked)%s%s%s' % (
+                len(m.uids), sum(1 for u in m.uids.values() if u['revoked']), len(m.subs), sum(1 for x in m.subs if x['revoked']),
+                ', key revoked' if m.key_revoked else '', ', protected' if m.protected else '', ', third-party certified' if any(u['third'] for u in m.uids.values()) else ''))
         except Exception as e:
             import traceback
             probs.append(('exception', 'observing the state raised %r %s' % (e, traceback.format_exc()[-300:])))
